@@ -144,6 +144,16 @@ def t_or_mask_filter(E):
                 E.z(E.method(gs, "__getitem__", addr)) == want)
     E.prove("C17.ChoiceMap.and.keeps_right_values_at_left_addresses", agrees(
         E, E.method(m1, "__and__", m2), {("x",): (True, c)}, ("x", "y", "z", "g"), depth=2))
+    # operands that share a static prefix of length 2: the union must recurse below BOTH shared levels
+    n1 = E.call(C_ + "ChoiceMap.d", {("p", "q", "x"): a, ("p", "r"): b})
+    n2 = E.call(C_ + "ChoiceMap.d", {("p", "q", "y"): c, ("p", "q", "x"): d, ("p", "s"): d})
+    E.prove("C17.ChoiceMap.or.left_biased_union_below_a_shared_prefix_of_length_two", agrees(
+        E, E.method(n1, "__or__", n2), {("p", "q", "x"): (True, a), ("p", "q", "y"): (True, c), ("p", "r"): (True, b), ("p", "s"): (True, d)},
+        ("p", "q", "r", "s", "x", "y"), depth=3))
+    gs2 = E.method(E.method(n1, "__or__", n2), "get_selection")
+    E.prove("C17.ChoiceMap.get_selection.of_a_deep_union", E.And(
+        E.z(E.method(gs2, "__getitem__", ("p", "q", "y"))) == True, E.z(E.method(gs2, "__getitem__", ("p", "q", "x"))) == True,  # noqa: E712
+        E.z(E.method(gs2, "__getitem__", ("p", "q"))) == False))  # noqa: E712
     E.refutable("chm.or_mask_filter", E.eq(E.method(u, "__getitem__", "x"), c))
 
 
